@@ -40,10 +40,32 @@ Definition if_else_or {T} (o : option bool) (yes no el : T) : T :=
 Definition if_else_map {T} (o : option bool) (yes no : T) : option T := option_map (fun v : bool => if v then yes else no) o.
 
 (* ------------------------------------------------------------------ *)
+(* a functional array indexed by positive *)
+Inductive ptree (A : Type) : Type := PLeaf | PNode (l : ptree A) (x : option A) (r : ptree A).
+Arguments PLeaf {A}.
+Arguments PNode {A}.
+
+Fixpoint pt_get {A} (p : positive) (t : ptree A) : option A :=
+  match t with
+  | PLeaf => None
+  | PNode l x r => match p with xH => x | xO q => pt_get q l | xI q => pt_get q r end
+  end.
+Fixpoint pt_set {A} (p : positive) (v : option A) (t : ptree A) : ptree A :=
+  match p with
+  | xH => match t with PLeaf => PNode PLeaf v PLeaf | PNode l _ r => PNode l v r end
+  | xO q => match t with PLeaf => PNode (pt_set q v PLeaf) None PLeaf | PNode l x r => PNode (pt_set q v l) x r end
+  | xI q => match t with PLeaf => PNode PLeaf None (pt_set q v PLeaf) | PNode l x r => PNode l x (pt_set q v r) end
+  end.
+
+(* ------------------------------------------------------------------ *)
 (* FormattingContextState *)
 Record cstate := mkSt { s_broken : bool; s_can : bool; s_child : bool; s_oepl : option bool; s_bar : option bool }.
 Definition st_default : cstate := mkSt false true false None None.
-Definition st_at (d : list cstate) (i : nat) : cstate := nth i d st_default.
+(* FormattingNode::context_data (Vec<FormattingContextState>, one per context of the line): a functional array,
+   a missing entry is the default state *)
+Definition cdata := ptree cstate.
+Definition st_at (d : cdata) (i : positive) : cstate := match pt_get i d with Some s => s | None => st_default end.
+Definition dt_upd (i : positive) (f : cstate -> cstate) (d : cdata) : cdata := pt_set i (Some (f (st_at d i))) d.
 
 Definition st_pivotal (ib : bool) (s : cstate) : cstate := mkSt (s_broken s || ib) (s_can s && ib) (s_child s) (s_oepl s) (s_bar s).
 Definition st_break (ib : bool) (s : cstate) : cstate := mkSt (s_broken s || ib) (s_can s) (s_child s) (s_oepl s) (s_bar s).
@@ -58,25 +80,25 @@ Definition st_bar_set (s : cstate) : cstate := mkSt (s_broken s) (s_can s) (s_ch
 Definition any_ct (_ : ContextType) : bool := true.
 
 (* SpecificContextDataStack::get_last_context *)
-Definition glc (flt : ContextType -> bool) (stk : cstack) (d : list cstate) (nli : nat) : option (fctx * cstate) :=
-  match find (fun p : nat * fctx => negb (Nat.eqb (c_start (snd p)) nli) && flt (c_ty (snd p))) stk with
+Definition glc (flt : ContextType -> bool) (stk : cstack) (d : cdata) (nli : N) : option (fctx * cstate) :=
+  match find (fun p : positive * fctx => negb (c_start (snd p) =? nli) && flt (c_ty (snd p))) stk with
   | Some (i, c) => Some (c, st_at d i)
   | None => None
   end.
-Definition glc_d {T} (flt : ContextType -> bool) (stk : cstack) (d : list cstate) (nli : nat) (f : cstate -> T) : option T :=
+Definition glc_d {T} (flt : ContextType -> bool) (stk : cstack) (d : cdata) (nli : N) (f : cstate -> T) : option T :=
   option_map (fun p : fctx * cstate => f (snd p)) (glc flt stk d nli).
-Definition glc_o (flt : ContextType -> bool) (stk : cstack) (d : list cstate) (nli : nat) (f : cstate -> option bool) : option bool :=
+Definition glc_o (flt : ContextType -> bool) (stk : cstack) (d : cdata) (nli : N) (f : cstate -> option bool) : option bool :=
   match glc flt stk d nli with Some (_, s) => f s | None => None end.
 
 (* SpecificContextDataStack::parents_support_break *)
-Definition parents_support_break (stk : cstack) (d : list cstate) (nli : nat) : bool :=
-  forallb (fun p : nat * fctx => if is_active_at (snd p) nli then s_can (st_at d (fst p)) else true) stk.
+Definition parents_support_break (stk : cstack) (d : cdata) (nli : N) : bool :=
+  forallb (fun p : positive * fctx => if is_active_at (snd p) nli then s_can (st_at d (fst p)) else true) stk.
 
 (* SpecificContextDataStack::get_continuation_count (the u64 sum `as u16` is not truncated here) *)
-Definition get_continuation_count (stk : cstack) (d : list cstate) (li : nat) : N :=
-  fold_left (fun acc (p : nat * fctx) =>
+Definition get_continuation_count (stk : cstack) (d : cdata) (li : N) : N :=
+  fold_left (fun acc (p : positive * fctx) =>
                let c := snd p in
-               let closing := match c_end c with Some e => Nat.eqb e li | None => false end && is_brackets (c_ty c) in
+               let closing := match c_end c with Some e => e =? li | None => false end && is_brackets (c_ty c) in
                if s_broken (st_at d (fst p)) && is_active_at c li && negb closing then acc + c_delta c else acc) stk 0.
 
 (* ------------------------------------------------------------------ *)
@@ -91,7 +113,7 @@ Definition tt_has_prec (t : option TokenType) : bool :=
   match t with Some ((TT_Op _ | TT_Keyword _) as op) => match get_operator_precedence op with Some _ => true | None => false end | _ => false end.
 
 Definition get_formatting_requirement (lt : LogicalLineType) (win cur : option TokenType) (inv : option DecisionRequirement)
-    (stk : cstack) (d : list cstate) (nli : nat) : DecisionRequirement :=
+    (stk : cstack) (d : cdata) (nli : N) : DecisionRequirement :=
   match stk with
   | [] => DR_Invalid
   | (top_i, top) :: _ =>
@@ -167,13 +189,13 @@ Definition get_formatting_requirement (lt : LogicalLineType) (win cur : option T
       if_else_or (glc_o (fun t => t IS (CT_CommaElem | CT_AssignRHS)) stk d nli s_bar) MB MNB IND
     else if win IS Some (TT_Keyword (KK_If | KK_Case | KK_While | KK_Until | KK_On)) then MNB
     else if win IS Some (TT_Keyword KK_With) then
-      if_else_or (option_map (fun p : nat * fctx => c_ty (snd p) IS CT_CommaList)
-                             (find (fun p : nat * fctx => c_ty (snd p) IS (CT_CommaList | CT_GuardClause)) stk)) IND MNB IND
+      if_else_or (option_map (fun p : positive * fctx => c_ty (snd p) IS CT_CommaList)
+                             (find (fun p : positive * fctx => c_ty (snd p) IS (CT_CommaList | CT_GuardClause)) stk)) IND MNB IND
     else if win IS Some (TT_Keyword (KK_Raise | KK_At)) then MNB
     else if (win, cur) IS (Some (TT_Keyword KK_Of), Some (TT_Op OK_LParen)) then MNB
     else if (win, cur) IS (Some (TT_Keyword KK_Of), Some (TT_Keyword KK_Object)) then
-      if_else_or (option_map (fun p : nat * fctx => s_child (st_at d (fst p)))
-                             (find (fun p : nat * fctx => c_ty (snd p) IS CT_AssignRHS) stk)) IND MNB IND
+      if_else_or (option_map (fun p : positive * fctx => s_child (st_at d (fst p)))
+                             (find (fun p : positive * fctx => c_ty (snd p) IS CT_AssignRHS) stk)) IND MNB IND
     else if win IS Some (TT_Keyword KK_Of) then
       if_else_or (g (fun t => t IS CT_Base) s_child) IND MNB IND
     else if cur IS Some (TT_Keyword (KK_Then | KK_Do | KK_Of)) then MNB
@@ -204,9 +226,9 @@ Definition get_formatting_requirement (lt : LogicalLineType) (win cur : option T
 
 (* ------------------------------------------------------------------ *)
 (* contexts.rs: update_last_matching_context: the first ACTIVE context of the stack whose type passes *)
-Definition ulm (flt : ContextType -> bool) (op : fctx -> cstate -> cstate) (stk : cstack) (nli : nat) (d : list cstate) : list cstate :=
-  match find (fun p : nat * fctx => is_active_at (snd p) nli && flt (c_ty (snd p))) stk with
-  | Some (i, c) => upd_at i (op c) d
+Definition ulm (flt : ContextType -> bool) (op : fctx -> cstate -> cstate) (stk : cstack) (nli : N) (d : cdata) : cdata :=
+  match find (fun p : positive * fctx => is_active_at (snd p) nli && flt (c_ty (snd p))) stk with
+  | Some (i, c) => dt_upd i (op c) d
   | None => d
   end.
 
@@ -217,16 +239,16 @@ Fixpoint take_while_prec (stk : cstack) : cstack :=
   end.
 
 (* update_operator_precedences *)
-Definition update_operator_precedences (stk : cstack) (nli : nat) (ib : bool) (d : list cstate) : list cstate :=
+Definition update_operator_precedences (stk : cstack) (nli : N) (ib : bool) (d : cdata) : cdata :=
   let d := ulm (fun t => t IS (CT_Precedence _ | CT_ConditionalDirective))
                (fun c s => if c_ty c IS CT_Precedence _ then st_can ib (st_oepl_ins ib s) else s) stk nli d in
-  if ib then fold_left (fun d (p : nat * fctx) => upd_at (fst p) (fun s => st_oepl_set (st_set_broken s)) d) (take_while_prec stk) d
+  if ib then fold_left (fun d (p : positive * fctx) => dt_upd (fst p) (fun s => st_oepl_set (st_set_broken s)) d) (take_while_prec stk) d
   else d.
 
 (* SpecificContextStack::update_contexts; nli = node.next_line_index = the token's line index *)
-Definition update_contexts (lt : LogicalLineType) (win cur : option TokenType) (stk : cstack) (nli : nat) (ib : bool)
-    (d : list cstate) : list cstate :=
-  let d := fold_left (fun d (p : nat * fctx) => if is_active_at (snd p) nli then upd_at (fst p) (st_child ib) d else d) (tl stk) d in
+Definition update_contexts (lt : LogicalLineType) (win cur : option TokenType) (stk : cstack) (nli : N) (ib : bool)
+    (d : cdata) : cdata :=
+  let d := fold_left (fun d (p : positive * fctx) => if is_active_at (snd p) nli then dt_upd (fst p) (st_child ib) d else d) (tl stk) d in
   let piv (_ : fctx) := st_pivotal ib in
   let brk (_ : fctx) := st_break ib in
   let d :=
@@ -244,9 +266,9 @@ Definition update_contexts (lt : LogicalLineType) (win cur : option TokenType) (
     else if win IS Some (TT_Op OK_Colon) then ulm any_ct piv stk nli d
     else if win IS Some (TT_Keyword (KK_If | KK_While | KK_Until | KK_On | KK_Case)) then ulm (fun t => t IS CT_ControlFlowBegin) brk stk nli d
     else if win IS Some (TT_Keyword KK_With) then
-      let d := match find (fun p : nat * fctx => c_ty (snd p) IS (CT_CommaList | CT_GuardClause)) stk with
+      let d := match find (fun p : positive * fctx => c_ty (snd p) IS (CT_CommaList | CT_GuardClause)) stk with
                | Some (i, c) => if c_ty c IS CT_CommaList
-                                then ulm (fun t => t IS CT_ControlFlow) piv stk nli (upd_at i (st_pivotal ib) d)
+                                then ulm (fun t => t IS CT_ControlFlow) piv stk nli (dt_upd i (st_pivotal ib) d)
                                 else d
                | None => d
                end in
@@ -274,10 +296,10 @@ Definition update_contexts (lt : LogicalLineType) (win cur : option TokenType) (
     else if win IS Some (TT_Keyword KK_Of) then ulm any_ct piv stk nli d
     else if win IS Some (TT_Keyword (KK_Uses | KK_Contains | KK_Requires | KK_Exports)) then ulm (fun t => t IS CT_Base) piv stk nli d
     else if cur IS Some (TT_Op OK_Dot) then
-      match find (fun p : nat * fctx => is_active_at (snd p) nli && (c_ty (snd p) IS (CT_Precedence _ | CT_MemberAccess))) stk with
+      match find (fun p : positive * fctx => is_active_at (snd p) nli && (c_ty (snd p) IS (CT_Precedence _ | CT_MemberAccess))) stk with
       | Some (i, c) =>
           if c_ty c IS CT_Precedence _ then update_operator_precedences stk nli ib d
-          else upd_at i (fun s => st_break ib (st_oepl_ins ib s)) d
+          else dt_upd i (fun s => st_break ib (st_oepl_ins ib s)) d
       | None => d
       end
     else if tt_has_prec cur && match cur with Some op => is_binary op win | None => false end then
@@ -285,17 +307,17 @@ Definition update_contexts (lt : LogicalLineType) (win cur : option TokenType) (
     else ulm any_ct brk stk nli d in
   let d :=
     if cur IS Some (TT_ConditionalDirective _) then
-      match find (fun p : nat * fctx => c_ty (snd p) IS CT_ConditionalDirective) stk with
-      | Some (i, _) => upd_at i (st_can ib) d
+      match find (fun p : positive * fctx => c_ty (snd p) IS CT_ConditionalDirective) stk with
+      | Some (i, _) => dt_upd i (st_can ib) d
       | None => d
       end
     else d in
   let real := match cur with Some t => negb (is_comment_or_compiler_directive t) | None => false end in
   fold_left
-    (fun d (p : nat * fctx) =>
+    (fun d (p : positive * fctx) =>
        let c := snd p in
        if is_active_at c nli then
-         upd_at (fst p)
+         dt_upd (fst p)
            (fun s =>
               match c_ty c with
               | CT_ConditionalDirective =>
@@ -400,21 +422,21 @@ Record wsettings := mkWS { w_max : N; w_iter : N; w_bbb : bool; w_indw : N; w_co
 Definition lws_len (W : wsettings) (ws : N * N) : N := fst ws * w_indw W + snd ws * w_contw W.
 
 (* mod.rs: get_decision_penalty *)
-Definition break_penalty (lt : LogicalLineType) (fprev : option TokenType) (stk : cstack) (li : nat) : N :=
+Definition break_penalty (lt : LogicalLineType) (fprev : option TokenType) (stk : cstack) (li : N) : N :=
   let routine_type :=
     if fprev IS Some (TT_Op OK_Colon) then
-      match find (fun p : nat * fctx => c_ty (snd p) IS (CT_AnonHeader | CT_Brackets _ _)) stk with
+      match find (fun p : positive * fctx => c_ty (snd p) IS (CT_AnonHeader | CT_Brackets _ _)) stk with
       | Some (_, c) => negb (is_brackets (c_ty c))
       | None => lt IS LLT_RoutineHeader
       end
     else false in
-  let active := option_map (fun p : nat * fctx => c_ty (snd p)) (find (fun p : nat * fctx => is_active_at (snd p) li) stk) in
+  let active := option_map (fun p : positive * fctx => c_ty (snd p)) (find (fun p : positive * fctx => is_active_at (snd p) li) stk) in
   if active IS Some (CT_Brackets BK_Angle _) then 1024
   else if (active IS Some CT_DirectivesLine) && (lt IS LLT_RoutineHeader) then 512
   else if routine_type then 256
   else 3.
 
-Definition decision_penalty (W : wsettings) (lt : LogicalLineType) (r : trec) (li : nat) (is_break : bool) (line_length : N) : N :=
+Definition decision_penalty (W : wsettings) (lt : LogicalLineType) (r : trec) (li : N) (is_break : bool) (line_length : N) : N :=
   if is_break then break_penalty lt (tr_fprev r) (tr_stk r) li
   else if w_max W <? line_length then 1048576 + (line_length - w_max W) * 3
   else 0.
@@ -422,11 +444,11 @@ Definition decision_penalty (W : wsettings) (lt : LogicalLineType) (r : trec) (l
 (* ------------------------------------------------------------------ *)
 (* FormattingNode.  n_decs: the decision list, newest first (NodeRef into the decision tree);
    n_rest: the records of the tokens still to decide (= skipn n_nli of the line's records) *)
-Record node := mkNode { n_ws : N * N; n_decs : list tdec; n_nli : nat; n_rest : list trec; n_data : list cstate; n_pen : N }.
+Record node := mkNode { n_ws : N * N; n_decs : list tdec; n_nli : N; n_rest : list trec; n_data : cdata; n_pen : N }.
 
 (* Ord for FormattingNode: a > b *)
 Definition node_gt (a b : node) : bool :=
-  (n_pen a <? n_pen b) || ((n_pen a =? n_pen b) && Nat.ltb (n_nli b) (n_nli a)).
+  (n_pen a <? n_pen b) || ((n_pen a =? n_pen b) && (n_nli b <? n_nli a)).
 Definition node_le (a b : node) : bool := negb (node_gt a b).
 
 (* FormattingSolution::from(FormattingNode) *)
@@ -436,22 +458,6 @@ Definition solution_of_node (n : node) : solution :=
 (* ------------------------------------------------------------------ *)
 (* BinaryHeap<FormattingNode>: a functional array indexed by positive (1-based: position p holds data[p-1];
    the parent of p is p/2, its children 2p and 2p+1) and its length *)
-Inductive ptree (A : Type) : Type := PLeaf | PNode (l : ptree A) (x : option A) (r : ptree A).
-Arguments PLeaf {A}.
-Arguments PNode {A}.
-
-Fixpoint pt_get {A} (p : positive) (t : ptree A) : option A :=
-  match t with
-  | PLeaf => None
-  | PNode l x r => match p with xH => x | xO q => pt_get q l | xI q => pt_get q r end
-  end.
-Fixpoint pt_set {A} (p : positive) (v : option A) (t : ptree A) : ptree A :=
-  match p with
-  | xH => match t with PLeaf => PNode PLeaf v PLeaf | PNode l _ r => PNode l v r end
-  | xO q => match t with PLeaf => PNode (pt_set q v PLeaf) None PLeaf | PNode l x r => PNode (pt_set q v l) x r end
-  | xI q => match t with PLeaf => PNode PLeaf None (pt_set q v PLeaf) | PNode l x r => PNode l x (pt_set q v r) end
-  end.
-
 Record heap := mkHeap { h_len : N; h_data : ptree node }.
 Definition heap_empty : heap := mkHeap 0 PLeaf.
 Definition h_get (p : positive) (h : heap) : option node := pt_get p (h_data h).
@@ -642,16 +648,16 @@ Definition first_inv_must_break (lv : lview) : bool :=
   match lv_recs lv with r :: _ => tr_inv r IS Some DR_MustBreak | [] => false end.
 
 (* find_optimal_child_lines_solution.
-   line_idx = line.0; r = the record of the token at next_line_index; prev_toks_rev = tokens[0..next_line_index] reversed;
+   line_idx = line.0; r = the record of the token at next_line_index = tok_li; gtoks = the line's tokens;
    decs = the decisions made so far; d, nli = the context data and next_line_index of the node given as parent_contexts *)
-Definition child_lines_solutions (st : sst) (line_idx : nat) (r : trec) (prev_toks_rev : list N) (ws : N * N) (decs : list tdec)
-    (d : list cstate) (nli : nat) (token_line_length : N) (parent_continuations : N)
+Definition child_lines_solutions (st : sst) (line_idx : nat) (r : trec) (gtoks : list N) (tok_li : N) (ws : N * N) (decs : list tdec)
+    (d : cdata) (nli : N) (token_line_length : N) (parent_continuations : N)
     : sst * list (list (nat * solution)) :=
   match tr_kids r with
   | None => (st, [[]])
   | Some lc =>
       let starting_continuations :=
-        match find_continuations (lch_parent_tok lc) prev_toks_rev decs with Some c => c | None => parent_continuations end in
+        match find_continuations (lch_parent_tok lc) (rev (firstn (N.to_nat tok_li) gtoks)) decs with Some c => c | None => parent_continuations end in
       let child_starting_ws := (fst ws, snd ws + starting_continuations, 0) in
       let parent_base_ws := (fst ws, snd ws, 1) in
       let parent_indented_ws := (fst ws, snd ws, 0) in
@@ -721,9 +727,9 @@ Definition child_lines_solutions (st : sst) (line_idx : nat) (r : trec) (prev_to
   end.
 
 (* update_contexts_from_child_solutions *)
-Definition update_from_children (stk : cstack) (nli : nat) (kids : list (nat * solution)) (d : list cstate) : list cstate :=
+Definition update_from_children (stk : cstack) (nli : N) (kids : list (nat * solution)) (d : cdata) : cdata :=
   if existsb (fun ks : nat * solution => existsb (fun t => td_dec t IS WBreak _) (sol_decs (snd ks))) kids then
-    fold_left (fun d (p : nat * fctx) => upd_at (fst p) (fun s => mkSt (s_broken s) (s_can s) true (s_oepl s) (Some true)) d) stk d
+    fold_left (fun d (p : positive * fctx) => dt_upd (fst p) (fun s => mkSt (s_broken s) (s_can s) true (s_oepl s) (Some true)) d) stk d
   else match kids with
        | [] => d
        | _ => ulm (fun t => t IS CT_ControlFlowBegin) (fun _ s => mkSt (s_broken s) false (s_child s) (s_oepl s) (s_bar s)) stk nli d
@@ -747,8 +753,6 @@ Definition token_line_length' (ws : N * N) (decs : list tdec) (dec : wdecision) 
 
 Variable lv : lview.              (* the line being solved *)
 
-Definition prev_toks_rev (nli : nat) : list N := rev (firstn nli (lv_gtoks lv)).
-
 (* get_potential_solution: the successors of `nd` for one raw decision *)
 Definition potential (st : sst) (nd : node) (is_break : bool) : sst * list node :=
   match n_rest nd with
@@ -761,11 +765,11 @@ Definition potential (st : sst) (nd : node) (is_break : bool) : sst * list node 
       let dec := if is_break then WBreak cc else WContinue in
       let tll := token_line_length' (n_ws nd) (n_decs nd) dec r in
       let pen := n_pen nd + decision_penalty W (lv_type lv) r li is_break tll in
-      let (st, sols) := child_lines_solutions st (lv_idx lv) r (prev_toks_rev li) (n_ws nd) (n_decs nd) d li tll cc in
+      let (st, sols) := child_lines_solutions st (lv_idx lv) r (lv_gtoks lv) li (n_ws nd) (n_decs nd) d li tll cc in
       (st, map (fun kids : list (nat * solution) =>
                   let d := update_from_children stk li kids d in
                   let pen := fold_left (fun a (ks : nat * solution) => a + sol_pen (snd ks)) kids pen in
-                  mkNode (n_ws nd) (TDec dec tll kids :: n_decs nd) (S li) rest d pen) sols)
+                  mkNode (n_ws nd) (TDec dec tll kids :: n_decs nd) (N.succ li) rest d pen) sols)
   end.
 
 Inductive walk_res : Type := W_push (n : node) | W_extend (l : list node) | W_dead | W_fuel.
@@ -812,7 +816,7 @@ Fixpoint walk (fuel : nat) (nd : node) (indiff : option node) (best : list N) (s
                   end
               | DR_MustBreak =>
                   let (st, sols) := potential st nd true in
-                  let li := n_nli nd in
+                  let li := N.to_nat (n_nli nd) in
                   let '(best, kept) :=
                     fold_left (fun (acc : list N * list node) (n : node) =>
                                  if n_pen n <? best_at (fst acc) li then (upd_at li (fun _ => n_pen n) (fst acc), snd acc ++ [n]) else acc)
@@ -848,7 +852,7 @@ Fixpoint main_loop (fuel : nat) (h : heap) (iter : N) (best : list N) (st : sst)
                 let s := solution_of_node nd in
                 (sst_log (Ev_S (lv_idx lv) (WS_ok (sol_pen s) iter (sol_len s))) st, SR_ok s)
             | _ :: _ =>
-                if best_at best (Nat.pred (n_nli nd)) <? n_pen nd then main_loop f h iter best st
+                if best_at best (N.to_nat (N.pred (n_nli nd))) <? n_pen nd then main_loop f h iter best st
                 else
                   let '(res, best, st) := walk (S (S (length (lv_recs lv)))) nd None best st in
                   match res with
@@ -878,10 +882,10 @@ Definition find_optimal_solution (st : sst) (ws : N * N) (first : first_decision
       if (inv IS Some DR_MustBreak) && negb is_break then (st, SR_none)
       else
         let dec := if is_break then WBreak 0 else WContinue in
-        let d0 := upd_at 0 (fun s => mkSt (s_broken s) base_can_break (s_child s) (s_oepl s) (s_bar s)) (repeat st_default (lv_count lv)) in
+        let d0 := dt_upd xH (fun s => mkSt (s_broken s) base_can_break (s_child s) (s_oepl s) (s_bar s)) PLeaf in
         let pen := decision_penalty W (lv_type lv) r 0 is_break lll in
         (* parent_contexts = init_context_stack.with_data(&node): the node's next_line_index is already 1 *)
-        let (st, sols) := child_lines_solutions st (lv_idx lv) r [] ws [TDec dec lll []] d0 1 lll 0 in
+        let (st, sols) := child_lines_solutions st (lv_idx lv) r [] 0 ws [TDec dec lll []] d0 1 lll 0 in
         (* both initial nodes share the root of the decision tree: the child solutions written last win *)
         let kids := match last_opt' sols with Some k => k | None => [] end in
         let nd := mkNode ws [TDec dec lll kids] 1 rest d0 pen in
